@@ -21,6 +21,14 @@ Two parts, reported separately in the evidence.
     unchanged.  In the default mode: mutating the constructor arguments afterwards does not change
     the automaton, every nested container is frozenset / frozendict / tuple, setattr / delattr /
     nested writes raise, copy() and pickle give the same class with identical input_parameters.
+
+Round 3 (same level as (B): observation on the real objects):
+(C) `results_family` / `judge_result` / `factory_case`: the immutability, hashability and copy / pickle clauses
+    evaluated on every automaton an OPERATION returns (default configuration; operands built under either
+    setting of the option — the option is SWITCHED between construction and the calls), plus "later mutation
+    of the objects passed to the constructor" evaluated on copies / results made in the default configuration.
+(D) `lookalike_family`: mutable option + transition tables / sets in dict / set subclasses (defaultdict,
+    OrderedDict, __missing__), reads of missing rows / symbols, definition compared with the one as built.
 """
 from __future__ import annotations
 
@@ -46,7 +54,17 @@ RULE = ("(A) cases = Python values for freeze_value (all values of nesting depth
         "new/copy/pickle; (B) cases = (history step: operation, operands) on a pool of tracked instances of the 8 "
         "classes under allow_mutable_automata=True, and (class, definition) for the default-mode immutability probes. "
         "Non-trivial: the value contains a mutable container below the top level / the definition has ≥2 states and "
-        "≥1 transition; distinct = distinct encoded values / (class, definition, operation) tuples")
+        "≥1 transition; distinct = distinct encoded values / (class, definition, operation) tuples. Round 3: (C) RESULTS "
+        "of operations as immutable values — every automaton returned by every operation / conversion / copy of every "
+        "class and by the 15 automaton-valued class methods, called in the default configuration on operands built in "
+        "the default configuration AND on operands built while the option was on and switched off before the call: "
+        "stored containers in immutable form (atoms, tuple, frozenset, frozendict only — dict views and other "
+        "look-alikes are not) and hashable, copy() / pickle / copy.copy / copy.deepcopy give the same class with an "
+        "identical definition, and mutating the objects once passed to the operands' constructors changes no result; "
+        "copies made under m1=False in (A) are judged the same way; (D) under the option, definitions handed over in "
+        "dict / set SUBCLASSES (defaultdict outer+rows / outer only, OrderedDict, dict subclasses whose __missing__ "
+        "inserts / answers a default, a set subclass): every operation, query and run — words with symbols missing "
+        "from rows, states without rows, a symbol outside the alphabet — must leave the definition as built")
 ASSUMPTIONS = [
     "part (B) is MONITORED at level 'other': absence of operand mutation and of harmful aliasing is observed on sampled histories, not proved",
     "freeze_value theorems assume `supported`: every dict key and every set/frozenset element is hashable (on the model: contains no dict/set/list). This excludes nothing that exists: Python raises TypeError (unhashable type) when such a dict/set/frozenset is built. Lists inside tuples ARE covered (fix 3900daf)",
@@ -54,6 +72,8 @@ ASSUMPTIONS = [
     "objects other than str/int/dict/set/list/tuple/frozenset/frozendict are atoms assumed immutable (None, float, …)",
     "pickle's byte encoding is CPython's and trusted; the model covers __getstate__/__setstate__",
     "show_diagram (DFA / NFA / GNFA / DPDA / NPDA) cannot be exercised here: pygraphviz / coloraide are not installed, the method raises ImportError before touching the automaton; that it leaves its operand unchanged is therefore NOT observed by the histories",
+    "atoms of a definition (state names, symbols) are str / int / float / None / bytes / tuples / frozensets of these, as "
+    "the generators produce them: 'immutable form' of a stored value is judged by type (atoms, tuple, frozenset, frozendict)",
     "an exception inside a history that is not a documented refusal (AutomatonException subclasses; NotImplementedError of GNFA readers; ValueError of DFA.random_word) is reported as a failure",
 ]
 EXPLANATION = ("Theorems C18_* prove for the model: freeze (tuples entered, fix 3900daf) leaves no mutable container in any value "
@@ -271,9 +291,11 @@ def check_object_model(ctx: Ctx, cls: str, kw, origin: str, m0: bool, m1: bool, 
         kw["colour"] = "red"
     stt = E.StrTable()
     enc = f"{cls} " + E.enc_kwargs(kw, stt)
+    args = G._dc(kw)   # the objects passed to the constructor (kept: mutated at the end)
+    made_in_default = []
     with M.options(False, m0):  # validation is not part of this model (C19)
         try:
-            obj = G.get_class(cls)(**G._dc(kw))
+            obj = G.get_class(cls)(**args)
             impl_new = params_line(obj, stt)
             if set(obj.input_parameters.keys()) != set(definition(obj).keys()):
                 ctx.prop_fail(f"{cls}: input_parameters {sorted(obj.input_parameters)} are not the constructor parameters "
@@ -314,6 +336,25 @@ def check_object_model(ctx: Ctx, cls: str, kw, origin: str, m0: bool, m1: bool, 
             ctx.corr_diff(how, rp, impl, model)
         if other is obj:
             ctx.prop_fail(f"{cls}.{how.lower()} returned the object itself", rp, None)
+        elif not m1:
+            # made in the DEFAULT configuration (whatever the option was when the source was built): stored in
+            # immutable form, and independent of the objects once passed to the source's constructor
+            bad = stored_not_immutable(other)
+            if bad:
+                ctx.prop_fail(f"{cls}.{how.lower()} made in the default configuration (source built under "
+                              f"allow_mutable={m0}) stores {describe_bad(bad)} — not in immutable form", rp, None)
+            made_in_default.append((how, other, G.snapshot(other.input_parameters), extra_definition(other), rp))
+    if made_in_default and m0 and not drop and not extra:
+        cs = containers_deep(args, [])
+        mutate_args(ctx.rng, args)
+        mutate_containers(ctx.rng, cs)
+        ctx.stat("object:args_mutated_after_copy_in_default_configuration")
+        for how, other, snap, ext, rp in made_in_default:
+            if G.snapshot(other.input_parameters) != snap or extra_definition(other) != ext:
+                ctx.prop_fail(f"{cls}.{how.lower()} made in the default configuration of an automaton built under "
+                              f"allow_mutable=True: mutating the objects once passed to the constructor changed the "
+                              f"{how.lower()} (it shares {describe_bad(stored_not_immutable(other)) or 'containers'} "
+                              f"with the source)", rp, None)
 
 
 def C19_nontrivial(kw) -> bool:
@@ -404,6 +445,389 @@ def mutate_containers(rng, cs: list):
             c.add(("#added", 2))
         else:
             c[("#added", 2)] = None
+
+
+# ------------------------------------------------------------------ immutable form of stored values
+ATOM_TYPES = (str, int, float, complex, bytes, type(None))  # bool is an int
+
+
+def not_immutable_form(v, path: str = "") -> list:
+    """Independent oracle for "stored in immutable form": atoms, and tuple / frozenset / frozendict whose
+    members are in immutable form.  Everything else — dict, set, list, their subclasses, and look-alikes such
+    as dict views (`d.keys()`), generators, deques — is reported as (path, type name)."""
+    if isinstance(v, frozendict):
+        out = []
+        for k, x in v.items():
+            out += not_immutable_form(k, f"{path}.key({k!r})") + not_immutable_form(x, f"{path}[{k!r}]")
+        return out
+    if isinstance(v, (tuple, frozenset)):
+        out = []
+        for i, x in enumerate(v):
+            out += not_immutable_form(x, f"{path}[{i}]" if isinstance(v, tuple) else f"{path}{{{x!r}}}")
+        return out
+    if isinstance(v, ATOM_TYPES):
+        return []
+    return [(path, type(v).__name__)]
+
+
+def public_extras(obj) -> Dict[str, Any]:
+    """Definition attributes kept in __dict__ outside the constructor parameters (GNFA.final_states)."""
+    return {k: v for k, v in getattr(obj, "__dict__", {}).items() if not k.startswith("_") and not hasattr(type(obj), k)}
+
+
+def stored_not_immutable(obj) -> list:
+    bad = []
+    for k, v in list(definition(obj).items()) + list(public_extras(obj).items()):
+        bad += not_immutable_form(v, k)
+    return bad
+
+
+def describe_bad(bad: list) -> str:
+    return ", ".join(f"{p} as a {t}" for p, t in bad[:3]) + (" …" if len(bad) > 3 else "")
+
+
+ROUNDTRIPS = [
+    ("copy()", lambda r: r.copy()),
+    ("pickle round trip", lambda r: pickle.loads(pickle.dumps(r))),
+    ("copy.copy", lambda r: _copy.copy(r)),
+    ("copy.deepcopy", lambda r: _copy.deepcopy(r)),
+]
+
+
+def judge_result(ctx: Ctx, what: str, r, rp: dict, default_config: bool) -> bool:
+    """The clauses of C18 evaluated on an automaton that an OPERATION returned (not only on automata the
+    harness constructed): in the default configuration every stored container is in immutable form and
+    hashable; copy(), a pickle round trip, copy.copy and copy.deepcopy give a new automaton of the same class
+    with an identical definition (and, in the default configuration, again in immutable form)."""
+    cls = type(r).__name__
+    ok = True
+    ctx.stat(f"result_judged:{'default' if default_config else 'mutable'}:{cls}")
+    if default_config:
+        bad = stored_not_immutable(r)
+        if bad:
+            ok = False
+            ctx.prop_fail(f"{what}: the returned {cls} stores {describe_bad(bad)} — not in immutable form "
+                          f"(default configuration)", rp, None)
+        else:
+            for k, v in definition(r).items():
+                try:
+                    hash(v)
+                except TypeError as e:
+                    ok = False
+                    ctx.prop_fail(f"{what}: attribute {k} of the returned {cls} is not hashable ({e})", rp, None)
+                    break
+    want = (G.norm(definition(r)), G.norm(public_extras(r)))
+    for how, f in ROUNDTRIPS:
+        try:
+            o = f(r)
+        except RecursionError:
+            raise
+        except Exception as e:  # noqa: BLE001
+            ok = False
+            ctx.prop_fail(f"{what}: {how} of the returned {cls} raised {type(e).__name__}: {str(e)[:100]}", rp, None)
+            continue
+        if type(o) is not type(r):
+            ok = False
+            ctx.prop_fail(f"{what}: {how} of the returned {cls} gives a {type(o).__name__}", rp, None)
+        elif o is r:
+            ok = False
+            ctx.prop_fail(f"{what}: {how} of the returned {cls} gives the object itself", rp, None)
+        elif (G.norm(definition(o)), G.norm(public_extras(o))) != want:
+            ok = False
+            ctx.prop_fail(f"{what}: {how} of the returned {cls} has a different definition: {definition(r)!r:.160} vs "
+                          f"{definition(o)!r:.160}", rp, None)
+        elif default_config and how != "copy.copy":
+            # (copy.copy shares the containers of its source by definition)
+            bad = stored_not_immutable(o)
+            if bad:
+                ok = False
+                ctx.prop_fail(f"{what}: {how} of the returned {cls} (default configuration) stores {describe_bad(bad)} "
+                              f"— not in immutable form", rp, None)
+    return ok
+
+
+def _al(rng):
+    return set(rng.choice([("a", "b"), ("0", "1"), ("a",), ("a", "b", "c")]))
+
+
+def _word(rng, al, n=4):
+    al = sorted(al)
+    return "".join(rng.choice(al) for _ in range(rng.randint(0, n)))
+
+
+def factory_args(rng) -> Dict[str, Any]:
+    al = _al(rng)
+    return dict(al=sorted(al), w=_word(rng, al, 3), lang=sorted({_word(rng, al, 3) for _ in range(rng.randint(0, 4))}),
+                k=rng.randint(1, 3), b=rng.random() < 0.5, b2=rng.random() < 0.5, maxlen=rng.choice([None, 0, 2]),
+                regex=rng.choice(["a*", "(a|b)*a", "ab?", "a&a*", "()", "a{1,2}b*"]), dist=rng.randint(0, 2))
+
+
+def factories(fa: Dict[str, Any]):
+    """Automaton-valued class methods (name, thunk) on small arguments handed over in PLAIN containers, as a
+    user writes them."""
+    from automata.fa.dfa import DFA
+    from automata.fa.nfa import NFA
+    al, w, lang, k, b, b2 = set(fa["al"]), fa["w"], set(fa["lang"]), fa["k"], fa["b"], fa["b2"]
+    sym = fa["al"][0]
+    mx = None if fa["maxlen"] is None else k + fa["maxlen"]
+    return [
+        ("DFA.from_finite_language(as_partial=False)", lambda: DFA.from_finite_language(set(al), set(lang), as_partial=False)),
+        ("DFA.from_finite_language(as_partial=True)", lambda: DFA.from_finite_language(set(al), set(lang), as_partial=True)),
+        ("DFA.from_prefix", lambda: DFA.from_prefix(set(al), w, contains=b, as_partial=b2)),
+        ("DFA.from_suffix", lambda: DFA.from_suffix(set(al), w or sym, contains=b)),
+        ("DFA.from_substring", lambda: DFA.from_substring(set(al), w, contains=b, must_be_suffix=b2)),
+        ("DFA.from_substrings", lambda: DFA.from_substrings(set(al), set(lang) | {w or sym}, contains=b)),
+        ("DFA.from_subsequence", lambda: DFA.from_subsequence(set(al), w, contains=b)),
+        ("DFA.of_length", lambda: DFA.of_length(set(al), min_length=k - 1, max_length=mx)),
+        ("DFA.count_mod", lambda: DFA.count_mod(set(al), k + 1, remainders={0, k} if b else None)),
+        ("DFA.universal_language", lambda: DFA.universal_language(set(al))),
+        ("DFA.empty_language", lambda: DFA.empty_language(set(al))),
+        ("DFA.nth_from_start", lambda: DFA.nth_from_start(set(al), sym, k)),
+        ("DFA.nth_from_end", lambda: DFA.nth_from_end(set(al), sym, k)),
+        ("NFA.from_regex", lambda: NFA.from_regex(fa["regex"], input_symbols=set(al) | {"a", "b"})),
+        ("NFA.edit_distance", lambda: NFA.edit_distance(set(al), w, fa["dist"])),
+    ]
+
+
+def factory_case(ctx: Ctx, fa: Dict[str, Any], only_op: Optional[str] = None):
+    for name, thunk in factories(fa):
+        if only_op is not None and name != only_op:
+            continue
+        with M.options(True, False):
+            try:
+                r = thunk()
+            except RecursionError:
+                raise
+            except Exception:  # noqa: BLE001 - argument refusals are not this property's question
+                ctx.stat(f"factory_refused:{name}")
+                continue
+            ok = judge_result(ctx, name, r, dict(kind="factory", op=name, factory_args=fa), default_config=True)
+        ctx.case(("factory", name, repr(r)) if ok and len(r.states) >= 2 else None)
+
+
+@guarded
+def results_case(ctx: Ctx, cls: str, kw, kw2, m0: bool, rng, origin: str, only_op: Optional[str] = None, args_pack=None):
+    """Operands built under allow_mutable=m0 (from plain containers that the harness keeps), every operation
+    then called in the DEFAULT configuration; every automaton returned is judged by `judge_result`; finally —
+    when m0 — the containers once passed to the operands' constructors are mutated in place: no result made in
+    the default configuration may change."""
+    a1, a2 = G._dc(kw), (G._dc(kw2) if kw2 is not None else None)
+    with M.options(True, m0):
+        try:
+            x = G.get_class(cls)(**a1)
+            y = G.get_class(cls)(**a2) if a2 is not None else None
+        except Exception as e:  # noqa: BLE001
+            ctx.note(f"results_case: {cls} rejected a generated definition: {type(e).__name__}"[:200])
+            return
+    made = []
+    plan = [(n, f, 1) for n, f in M.unary_ops(cls) + roundtrip_ops(cls)] + [(n, f, 2) for n, f in M.binary_ops(cls)]
+    for name, fn, ar in plan:
+        if only_op is not None and name != only_op:
+            continue
+        if ar == 2 and y is None:
+            continue
+        a = args_pack if args_pack is not None else M.arg_pack(rng, kw["input_symbols"])
+        with M.options(True, False):
+            try:
+                r = fn(x, a) if ar == 1 else fn(x, y, a)
+            except RecursionError:
+                raise
+            except Exception:  # noqa: BLE001 - refusals / undocumented errors are C19's question
+                continue
+        if not M.is_automaton(r):
+            continue
+        rp = dict(kind="result", cls=cls, kwargs=repr(kw), rhs=repr(kw2) if ar == 2 else None, op=name, args=a, m0=m0)
+        what = (f"{name} in the default configuration on "
+                + ("an operand built under allow_mutable_automata=True" if m0 else "a default-configuration operand"))
+        with M.options(True, False):
+            ok = judge_result(ctx, what, r, rp, default_config=True)
+        ctx.case(("result", cls, name, m0, E.enc_def(cls, kw)) if ok and C19_nontrivial(kw) else None)
+        made.append((name, r, G.snapshot(r.input_parameters), extra_definition(r), rp))
+    if m0 and made:
+        for args in (a1, a2):
+            if args is not None:
+                cs = containers_deep(args, [])
+                mutate_args(rng, args)
+                mutate_containers(rng, cs)
+        ctx.stat("result:args_mutated_after_operations_in_default_configuration")
+        for name, r, snap, ext, rp in made:
+            if G.snapshot(r.input_parameters) != snap or extra_definition(r) != ext:
+                ctx.prop_fail(f"{name} called in the default configuration on an automaton built under "
+                              f"allow_mutable_automata=True: mutating the objects once passed to the operand's "
+                              f"constructor changed the RESULT (it shares {describe_bad(stored_not_immutable(r)) or 'containers'} "
+                              f"with the operand)", rp, None)
+
+
+def results_family(ctx: Ctx, rng, count: int):
+    """Every automaton-valued operation / conversion / copy of every class, and the automaton-valued class
+    methods, in the default configuration — on operands built in the default configuration and on operands
+    built while the option was ON and switched OFF again before the calls."""
+    for i in range(count):
+        for cls in G.CLASSES:
+            if cls not in ("DFA", "NFA", "GNFA") and i % 3:
+                continue  # the machines have copy() only
+            kw = G.rand_def(rng, cls)
+            kw2 = G.rand_def(rng, cls, alphabet=sorted(kw["input_symbols"])) if M.binary_ops(cls) else None
+            for m0 in (False, True):
+                results_case(ctx, cls, kw, kw2, m0, rng, "results")
+        factory_case(ctx, factory_args(rng))
+
+
+# ------------------------------------------------------------------ dict / set subclasses and look-alikes
+class InsertingDict(dict):
+    """A dict subclass whose __missing__ inserts a default (what collections.defaultdict does)."""
+    factory = dict
+
+    def __missing__(self, key):
+        v = self[key] = self.factory()
+        return v
+
+
+class InsertingSetDict(InsertingDict):
+    factory = set
+
+
+class InsertingListDict(InsertingDict):
+    factory = list
+
+
+class DefaultingDict(dict):
+    """A dict subclass whose __missing__ answers with a default WITHOUT inserting it."""
+
+    def __missing__(self, key):
+        return frozenset()
+
+
+class SetSub(set):
+    pass
+
+
+KEY_ASNTM_EAFP = "C18:as-ntm-read-inserts-into-defaultdict-table"
+INNER_FACTORY = {"NFA": set, "NTM": set, "MNTM": list, "DPDA": dict, "NPDA": dict}
+FLAVOURS = ("defaultdict", "defaultdict-outer", "OrderedDict", "missing-inserts", "missing-defaults", "set-subclass")
+
+
+def flavoured(cls: str, kw: Dict[str, Any], flavour: str) -> Dict[str, Any]:
+    """The definition `kw` with its transition table (and sets) rebuilt in dict / set SUBCLASSES a user may
+    well pass under allow_mutable_automata=True: collections.defaultdict (outer and rows — the usual way such
+    tables are built), OrderedDict, dict subclasses with __missing__ (inserting / answering a default), a set
+    subclass.  Same content, other container classes."""
+    import collections
+    import functools
+    kw = G._dc(kw)
+    t = kw["transitions"]
+    inner = INNER_FACTORY.get(cls)
+    if flavour == "defaultdict":
+        mk_row = (lambda row: collections.defaultdict(inner, row)) if inner else dict
+        row_factory = functools.partial(collections.defaultdict, inner) if inner else dict
+        kw["transitions"] = collections.defaultdict(row_factory, {q: mk_row(row) for q, row in t.items()})
+    elif flavour == "defaultdict-outer":
+        kw["transitions"] = collections.defaultdict(dict, t)
+    elif flavour == "OrderedDict":
+        kw["transitions"] = collections.OrderedDict((q, collections.OrderedDict(row)) for q, row in t.items())
+    elif flavour == "missing-inserts":
+        rowcls = {set: InsertingSetDict, list: InsertingListDict, dict: InsertingDict}.get(inner)
+        kw["transitions"] = InsertingDict({q: (rowcls(row) if rowcls else dict(row)) for q, row in t.items()})
+    elif flavour == "missing-defaults":
+        kw["transitions"] = DefaultingDict({q: (DefaultingDict(row) if inner in (set, list) else dict(row))
+                                            for q, row in t.items()})
+    elif flavour == "set-subclass":
+        for k in G.SET_PARAMS:
+            if k in kw:
+                kw[k] = SetSub(kw[k])
+        if cls in ("NFA", "NTM"):
+            kw["transitions"] = {q: {a: (SetSub(ts) if isinstance(ts, (set, frozenset)) else ts) for a, ts in row.items()}
+                                 for q, row in t.items()}
+    return kw
+
+
+def table_shape(t) -> Any:
+    """Which rows / entries a transition table HAS (what a read of a missing row / symbol may silently add)."""
+    return {repr(q): sorted(map(repr, row.keys())) if hasattr(row, "keys") else None for q, row in t.items()}
+
+
+@guarded
+def lookalike_case(ctx: Ctx, cls: str, kw, kw2, flavour: str, rng, origin: str, only_op: Optional[str] = None,
+                   args_pack=None):
+    """Mutable-automata option + definitions handed over in dict / set subclasses: no operation, query, run
+    or conversion may change the operand's definition — evaluated by comparing the live definition with the
+    definition AS BUILT (a deep plain copy) after every call.  The argument packs contain words with symbols
+    that are missing from rows, states without rows, and a symbol outside the alphabet."""
+    built = G.snapshot(G._dc(kw))
+    built2 = G.snapshot(G._dc(kw2)) if kw2 is not None else None
+    with M.options(True, True):
+        try:
+            x = G.get_class(cls)(**flavoured(cls, kw, flavour))
+            y = G.get_class(cls)(**flavoured(cls, kw2, flavour)) if kw2 is not None else None
+        except Exception as e:  # noqa: BLE001
+            ctx.note(f"lookalike_case: {cls} rejected a {flavour} definition: {type(e).__name__}"[:200])
+            return
+    if G.snapshot(x.input_parameters) != built:
+        ctx.note(f"lookalike_case: {cls} {flavour}: the stored definition differs from the arguments at construction")
+        return
+    plan = [(n, f, 1) for n, f in M.unary_ops(cls) + roundtrip_ops(cls)] + [(n, f, 2) for n, f in M.binary_ops(cls)]
+    rng.shuffle(plan)
+    al = sorted(kw["input_symbols"])
+    foreign = G.foreign_symbol(kw)
+    for name, fn, ar in plan:
+        if only_op is not None and name != only_op:
+            continue
+        if ar == 2 and y is None:
+            continue
+        if name.endswith("clear_cache"):
+            continue
+        a = args_pack
+        if a is None:
+            a = M.arg_pack(rng, al)
+            if rng.random() < 0.25 and a["w"]:
+                i = rng.randrange(len(a["w"]))
+                a["w"] = a["w"][:i] + foreign + a["w"][i + 1:]
+        shape_before = table_shape(x.transitions)
+        with M.options(rng.random() < 0.7, True):
+            try:
+                fn(x, a) if ar == 1 else fn(x, y, a)
+                out = "ok"
+            except RecursionError:
+                raise
+            except Exception as e:  # noqa: BLE001 - refusals / errors are C19's question; the operand is still compared
+                out = type(e).__name__
+        ctx.stat(f"monitored(other):lookalike:{flavour}:{cls}")
+        rp = dict(kind="lookalike", cls=cls, kwargs=repr(kw), rhs=repr(kw2) if ar == 2 else None, flavour=flavour,
+                  op=name, args=a)
+        ok = True
+        for who, obj, want in (("operand", x, built), ("second operand", y, built2)):
+            if obj is None or (who == "second operand" and ar == 1):
+                continue
+            now = G.snapshot(obj.input_parameters)
+            if now != want:
+                ok = False
+                after = table_shape(obj.transitions)
+                added = {q: sorted(set(v or []) - set(shape_before.get(q) or [])) for q, v in after.items()
+                         if q not in shape_before or set(v or []) - set(shape_before.get(q) or [])} if who == "operand" else "?"
+                # open finding KEY_ASNTM_EAFP: the one EAFP subscript of the unchanged tree (mntm.py
+                # read_input_as_ntm: `try: self.transitions[state][heads] except KeyError`)
+                key = (KEY_ASNTM_EAFP if cls == "MNTM" and name == "MNTM.read_input_as_ntm"
+                       and flavour in ("defaultdict", "defaultdict-outer", "missing-inserts") else None)
+                ctx.prop_fail(f"{name} ({out}) changed the definition of its {who} (allow_mutable_automata=True, "
+                              f"{cls} definition handed over as {flavour}): "
+                              + (f"rows / entries added: {added!r:.200}" if added and added != "?" else
+                                 "the content of existing rows / sets changed"), rp, key)
+                # go on from the changed state (every later call is compared with what it found)
+                if who == "operand":
+                    built = now
+                else:
+                    built2 = now
+        ctx.case(("lookalike", cls, flavour, name, E.enc_def(cls, kw)) if ok and C19_nontrivial(kw) else None)
+
+
+def lookalike_family(ctx: Ctx, rng, count: int):
+    for _ in range(count):
+        for cls in G.CLASSES:
+            kw = G.rand_def(rng, cls)
+            if cls == "MNTM" and rng.random() < 0.5:
+                kw = G.rand_tm_def(rng, "MNTM", list_results=True)
+            kw2 = G.rand_def(rng, cls, alphabet=sorted(kw["input_symbols"])) if M.binary_ops(cls) else None
+            lookalike_case(ctx, cls, kw, kw2, rng.choice(FLAVOURS), rng, "lookalike")
 
 
 # ------------------------------------------------------------------ (B) default mode probes
@@ -526,6 +950,7 @@ class Member:
         self.cls, self.obj, self.kw, self.tracked = cls, obj, kw, tracked
         self.snap = G.snapshot(obj.input_parameters)
         self.extra = extra_definition(obj)
+        self.inserting = False  # transition table in a dict subclass whose __missing__ inserts
 
 
 def _pickle_rt(m, a):
@@ -578,18 +1003,30 @@ def history(ctx: Ctx, rng, mutable: bool, steps: int, classes: List[str], origin
                 else:
                     kw = G.rand_def(rng, cls)
                 args = Mon.track_kwargs(G._dc(kw), log) if mutable else G._dc(kw)
+                flavour = None
+                if mutable and rng.random() < 0.3:
+                    # dict / set subclasses a user may pass (defaultdict, OrderedDict, __missing__): not tracked
+                    # call by call — an effective write shows in the snapshots compared after every call
+                    flavour = rng.choice(FLAVOURS)
+                    args = flavoured(cls, kw, flavour)
+                    ctx.stat(f"monitored(other):history:flavour:{flavour}")
                 try:
                     obj = G.get_class(cls)(**args)
                 except Exception as e:  # noqa: BLE001
                     ctx.note(f"history: {cls} rejected a generated definition: {type(e).__name__}: {e}"[:200])
                     continue
                 pool.append(Member(cls, obj, kw, mutable))
-                build.append(dict(cls=cls, kwargs=repr(kw)))
+                pool[-1].inserting = flavour in ("defaultdict", "defaultdict-outer", "missing-inserts")
+                build.append(dict(cls=cls, kwargs=repr(kw), **({"flavour": flavour} if flavour else {})))
     log.clear()
     trace = []
     for step in range(steps):
         m = rng.choice(pool)
         ops1 = M.unary_ops(m.cls) + roundtrip_ops(m.cls)
+        if m.cls == "MNTM" and getattr(m, "inserting", False):
+            # open finding KEY_ASNTM_EAFP (reported by lookalike_family under its key on every run): not repeated
+            # here, where the containers are shared with copies and the write could not be attributed
+            ops1 = [o for o in ops1 if o[0] != "MNTM.read_input_as_ntm"]
         ops2 = M.binary_ops(m.cls)
         a = M.arg_pack(rng, m.obj.input_symbols)
         if ops2 and rng.random() < 0.4:
@@ -636,6 +1073,10 @@ def history(ctx: Ctx, rng, mutable: bool, steps: int, classes: List[str], origin
             elif G.norm(definition(r)) != G.norm(definition(m.obj)) or extra_definition(r) != extra_definition(m.obj):
                 ctx.prop_fail(f"history step {step}: {name}: definitions differ: {definition(m.obj)!r:.200} vs "
                               f"{definition(r)!r:.200} (allow_mutable={mutable})", rp, None)
+        # 0b. default configuration: every automaton an operation returns is itself an immutable value
+        if not mutable and res[0] == "ok" and M.is_automaton(res[1]) and type(res[1]).__name__ in G.CLASSES:
+            with M.options(True, False):
+                judge_result(ctx, f"history step {step}: {name}", res[1], rp, default_config=True)
         # 1. no effective write to any tracked container
         ch = log.changes()
         if ch:
@@ -666,6 +1107,8 @@ def history(ctx: Ctx, rng, mutable: bool, steps: int, classes: List[str], origin
             r = res[1]
             if len(r.states) <= 12:
                 pool.append(Member(type(r).__name__, r, None, False))
+                # copies made under the option share / re-create the operand's container classes
+                pool[-1].inserting = mutable and any(getattr(x, "inserting", False) for x in operands)
                 build.append(dict(cls=type(r).__name__, result_of=len(trace) - 1))
 
 
@@ -762,6 +1205,11 @@ def run(ctx: Ctx):
                 kw = G.kwargs_of(M.construct("DFA", kw)[1].to_complete())
             check_object_model(ctx, cls, kw, "default_param", False, False, drop=p)
 
+    # ---- results of operations as immutable values; option switched between construction and calls
+    results_family(ctx, rng, ctx.budget(30, 400))
+    # ---- mutable option + dict / set subclasses and look-alikes as containers
+    lookalike_family(ctx, rng, ctx.budget(60, 800))
+
     # ---- (B) monitored histories (level "other")
     all_classes = list(G.CLASSES)
     for _ in range(ctx.budget(250, 2500)):
@@ -795,6 +1243,18 @@ def replay(ctx: Ctx, path: str) -> int:
         kw = eval(rp["kwargs"], _env())
         for _ in range(5):
             probe_default(ctx, rp["cls"], kw, rng, "replay")
+    elif kind == "result":
+        kw = eval(rp["kwargs"], _env())
+        kw2 = eval(rp["rhs"], _env()) if rp.get("rhs") else None
+        if kw2 is None and M.binary_ops(rp["cls"]):
+            kw2 = kw
+        results_case(ctx, rp["cls"], kw, kw2, rp["m0"], rng, "replay", only_op=rp["op"], args_pack=rp["args"])
+    elif kind == "factory":
+        factory_case(ctx, rp["factory_args"], only_op=rp["op"])
+    elif kind == "lookalike":
+        kw = eval(rp["kwargs"], _env())
+        kw2 = eval(rp["rhs"], _env()) if rp.get("rhs") else None
+        lookalike_case(ctx, rp["cls"], kw, kw2, rp["flavour"], rng, "replay", only_op=rp["op"], args_pack=rp["args"])
     elif kind == "history":
         # histories are regenerated from the recorded classes with the run's PRNG; the recorded
         # pool / trace document the failing step
